@@ -2,7 +2,7 @@
 
 Scenario (JSON-able):
   jobs:   [{"id": k, "group": g, "est": minutes|None, "blockers": [ids], "cancel": bool, "rc": int}]   (listing order)
-  groups: [{"batchSize": n, "timeBased": b, "tryAdd": b, "wallSec": s, "procs": p|None, "dryRun": b}]
+  groups: [{"batchSize": n, "timeBased": b, "tryAdd": b, "wallSec": s, "procs": p|None, "dryRun": b, "nodes": n|absent}]
   maxNodes: n|None
 Names: job k is called "j<k>", group g is "g<g>" with account "acct<g>" and job prefix "p<g>".
 """
@@ -32,7 +32,10 @@ def make_params(g, gi, max_nodes, extra=None, local=False):
     if local:
         hpc = HpcConfig(hpc_type="local", job_prefix=f"p{gi}", hpc={})
     else:
-        hpc = HpcConfig(hpc_type="slurm", job_prefix=f"p{gi}", hpc={"account": f"acct{gi}", "walltime": walltime_str(g["wallSec"])})
+        h = {"account": f"acct{gi}", "walltime": walltime_str(g["wallSec"])}
+        if g.get("nodes"):
+            h["nodes"] = g["nodes"]         # multi-node allocation: srun starts run-jobs on every node
+        hpc = HpcConfig(hpc_type="slurm", job_prefix=f"p{gi}", hpc=h)
     kw = dict(
         hpc_config=hpc,
         per_node_batch_size=g["batchSize"], time_based_batching=g["timeBased"], try_add_blocked_jobs=g["tryAdd"],
